@@ -355,7 +355,10 @@ def r02_4(ctx, fx):
             # (buffer_offset = 0) the first chunk always fits because the encrypt buffer holds >= 1 frame (R02.1)
             tracker = typestate.Tracker(fn, r"\.write_state$")
             off = [x for x in [_accumulators(fn)[1]] if x is not None]
-            extra = [n for n, kind, pl in fn.defs().get(off[0], []) if kind == "assign" and fn.const_value(pl["rv"].get("o", {})) == 0] if off else []
+            # the write position starts at 0 in the Idle arm; the variable may be handed to a helper (then the constant is assigned to
+            # the caller's local that the accumulator is initialised from)
+            extra = [n for l in slice_locals(fn, {"c": [off[0]]}) for n, kind, pl in fn.defs().get(l, [])
+                     if kind == "assign" and pl["rv"]["r"] == "use" and "k" in pl["rv"].get("o", {}) and fn.const_value(pl["rv"]["o"]) == 0] if off else []
             ctx.anchor("R02.4", "poll_write: Idle arm `buffer_offset = 0`", len(extra), 1, cfg=fx.cfg)
             note = " (paths through the Idle arm are discharged by the capacity argument of R02.1: a chunk of <= MAX_FRAME_LEN bytes fits an empty encrypt buffer)"
         bad, npolls, nwakers, npend = k11.pending_without_waker(fn, tracker=tracker, extra_avoid=extra)
